@@ -1,4 +1,4 @@
-From Tetl Require Import Lib.Base C06a.Instances C01.Model C01.Spec C05.Model C05.Spec.
+From Tetl Require Import Lib.Base C06a.Instances C01.Model C01.Spec C05.Model C05.Spec C05.ModelMore C05.SpecMore C05.ModelString.
 Require Extraction.
 Require Import ExtrOcamlBasic.
 Extraction Language OCaml.
@@ -8,4 +8,10 @@ Extraction "C05_model.ml" wire_anchor
   opt_deref exp_deref exp_error var_subscript var_unchecked_get div_sat_guard day_ctor month_ctor
   bit_guard bitset_guard array_index layout_stride_guard nonnull2
   pre_nonempty pre_index pre_count pre_span_subspan pre_variant
-  step spec_step empty_vec pred_of iv_step iv_spec_step.
+  step spec_step empty_vec pred_of iv_step iv_spec_step
+  static_set_ctor copy_ptrs_guard extents_eq linalg_copy_guard linalg_swap_guard linalg_add_guard linalg_mvp_guard
+  layout_stride_stride_guard bitset_str_guard to_string_guard format_escaped_guard
+  pre_range_fits pre_both_nonnull pre_bitset_str pre_to_string array_front array_back array0_index opt_arrow exp_arrow
+  pre_day_month pre_opt_arrow pre_exp_arrow
+  str_step str_pre_ok str_make str_ctor_fill str_size str_index str_front str_back
+  str_replace str_replace_ptr str_replace_cstr str_replace5.
